@@ -129,7 +129,44 @@ type opKind struct {
 	amtClass string
 }
 
+// genesisOps are the start states: the ledger as it is after chain start with an empty DAO, or as
+// the module's InitGenesis leaves it for a genesis that lists balances - with the total given, and
+// with the total omitted (which the genesis format allows: "it will be calculated").
+func (d *driver) genesisOps(w *world.World) []engine.Op {
+	imp := func(withTotal bool) func(w *world.World, p []string, res *engine.Result) string {
+		return func(w *world.World, p []string, res *engine.Result) string {
+			ctx := w.Ctx()
+			bal := map[string]sdk.Coins{
+				names[0]: sdk.NewCoins(sdk.NewInt64Coin(world.Denom, 3), sdk.NewInt64Coin(liquid, 2)),
+				names[1]: sdk.NewCoins(sdk.NewInt64Coin(world.Denom, 5)),
+			}
+			gs := ucdaotypes.GenesisState{Params: w.App.DaoKeeper.ExportGenesis(ctx).Params}
+			total := sdk.NewCoins()
+			for _, n := range []string{names[0], names[1]} {
+				if err := w.App.BankKeeper.SendCoinsFromAccountToModule(ctx, d.acct[n], ucdaotypes.ModuleName, bal[n]); err != nil {
+					panic(err)
+				}
+				gs.Balances = append(gs.Balances, ucdaotypes.Balance{Address: d.acct[n].String(), Coins: bal[n]})
+				total = total.Add(bal[n]...)
+			}
+			if withTotal {
+				gs.TotalBalance = total
+			}
+			w.App.DaoKeeper.InitGenesis(ctx, &gs)
+			return "ok"
+		}
+	}
+	return []engine.Op{
+		{Name: "genesis(empty)", Apply: func(w *world.World, p []string, res *engine.Result) string { return "ok" }},
+		{Name: "genesis(balances,total)", Apply: imp(true)},
+		{Name: "genesis(balances,total-omitted)", Apply: imp(false)},
+	}
+}
+
 func (d *driver) ops(w *world.World, depth int, path []string) []engine.Op {
+	if depth == 0 {
+		return d.genesisOps(w)
+	}
 	var out []engine.Op
 	add := func(name string, k opKind) {
 		out = append(out, engine.Op{Name: name, Apply: func(w *world.World, p []string, res *engine.Result) string {
@@ -433,7 +470,7 @@ func explorer(d *driver, res *engine.Result, tier string, shard, n int) *engine.
 	depth, dl := bounds(tier)
 	return &engine.Explorer{
 		W: d.w, Res: res, Stores: []string{"ucdao", "bank"}, Ops: d.ops, Invariant: d.invariant,
-		MaxDepth: depth, Shard: shard, NShards: n, Deadline: time.Now().Add(dl),
+		MaxDepth: depth + 1, ShardDepth: 1, Shard: shard, NShards: n, Deadline: time.Now().Add(dl), // +1: the genesis step
 		FailedMustNotChange: func(op string) (string, bool) {
 			k := op
 			if i := strings.IndexByte(k, '('); i > 0 {
@@ -451,7 +488,7 @@ func Worker(shard, n int, tier string) *engine.Result {
 	e := explorer(d, res, tier, shard, n)
 	e.Run()
 	if shard == 0 {
-		res.Sample(map[string]any{"ops_at_root": len(d.ops(d.w, 0, nil)), "first_ops": opNames(d.ops(d.w, 0, nil), 8)})
+		res.Sample(map[string]any{"ops_after_genesis": len(d.ops(d.w, 1, nil)), "first_ops": opNames(d.ops(d.w, 1, nil), 8)})
 	}
 	return res
 }
@@ -510,7 +547,7 @@ func Run(tier string) int {
 	}
 	return engine.Finish(res, engine.Meta{
 		Property: Prop, Tier: tier, Level: "model_checking", Start: start, Replayer: Replay,
-		Rule: "explicit-state DFS with digest dedup over {ucdao,bank} of all sequences <= depth over the alphabet (3 accounts incl. sender=recipient, 2 denoms); a case is non-trivial when a transfer succeeded, distinct by (kind, pre-ledger, self)",
+		Rule:     "explicit-state DFS with digest dedup over {ucdao,bank} of all sequences <= depth over the alphabet (3 accounts incl. sender=recipient, 2 denoms); a case is non-trivial when a transfer succeeded, distinct by (kind, pre-ledger, self)",
 		Bounds:   map[string]any{"depth": depth, "accounts": 3, "denoms": 2, "shards": 16},
 		Alphabet: alpha,
 		Assumptions: []string{
